@@ -19,7 +19,7 @@ ASSUMPTIONS = ["'equal' is numpy's ==: -0.0 and 0.0 may share a run; NaN never e
 ANCHORS = ["runlengtharray.py::RunLengthArray.from_array", "runlengtharray.py::RunLengthArray.to_array", "runlengtharray.py::RunLengthArray.__init__",
            "runlengtharray.py::RunLengthArray.remove_empty_intervals", "runlengtharray.py::RunLengthArray.join_runs",
            "util.py::unsafe_extend_left", "util.py::unsafe_extend_right", "runlengtharray.py::RunLengthArray.__array__"]
-KINDS = ["encode", "slice", "ufunc2", "ufunc2_derived", "unary", "scalar", "concat", "slice_derived"]
+KINDS = ["encode", "slice", "ufunc2", "ufunc2_derived", "unary", "scalar", "concat", "slice_derived", "ufunc2_inplace"]
 FLOOR_TAGS = ["k:" + k for k in KINDS] + ["style:" + s for s in rl.STYLES] + ["kind:b", "kind:i", "kind:u", "kind:f", "dt:float16", "v:nonfinite", "slice:stepped", "slice:unit",
                                                                               "adjacent-inf", "adjacent-nan"]
 FLOOR_MONITORS = ["c14:roundtrip", "c14:canonical", "c14:joined", "c14:decode-independent", "inv:rla"]
@@ -132,6 +132,18 @@ def run(case):
         a = attempt(uf, r, rw)
         joined = True
         what = "%s(rla, encoded %s %s)" % (case["uf"], w.dtype, short(w, 100))
+    elif kind == "ufunc2_inplace":
+        # x op= y with two encodings of unrelated run boundaries: afterwards the name x must hold a canonical encoding of the result
+        import operator
+        w = np.array(case["vals2"]).astype(dt)
+        iop = {"add": operator.iadd, "subtract": operator.isub, "multiply": operator.imul, "bitwise_xor": operator.ixor}[case["uf"]]
+        uf = getattr(np, case["uf"])
+        rw = RLA.from_array(w.copy())
+        exp = attempt(uf, r.to_array(), rw.to_array())
+        x = RLA.from_array(v.copy())
+        a = attempt(iop, x, rw)
+        joined = True
+        what = "x %s= encoded %s %s" % (case["uf"], w.dtype, short(w, 100))
     elif kind == "unary":
         uf = getattr(np, case["uf"])
         exp = attempt(uf, r.to_array())
@@ -196,6 +208,13 @@ def gen_case(rng, tier, kind=None, dtype=None, vclass=None, style=None):
         else:
             w, _ = rl.gen_runs(rng, dt2, "small", maxlen, length=L)
         c.update(vals2=np.asarray(w).tolist(), dtype2=dt2, uf=rng.choice(UF2), align=align)
+    elif kind == "ufunc2_inplace":
+        if k == "b":
+            c["dtype"] = dtype = "int64"
+            c["vals"] = [int(x) for x in c["vals"]]
+            k = "i"
+        w, _ = rl.gen_runs(rng, dtype, "small", maxlen, length=L)
+        c.update(vals2=np.asarray(w).tolist(), uf=rng.choice(["add", "subtract", "multiply"] + (["bitwise_xor"] if k in "iu" else [])))
     elif kind == "ufunc2_derived":
         c.update(uf=rng.choice(["subtract", "equal", "less", "bitwise_xor" if k in "iub" else "maximum", "minimum", "not_equal"]), via=rng.choice(["self", "plus1", "astype", "times2"]))
     elif kind == "unary":
@@ -224,6 +243,11 @@ def directed():
             yield mk_case(dtype, vals, "encode", style="runs", vclass="nonfinite")
             yield mk_case(dtype, vals, "slice", slice=slice(None, None, 2), style="runs", vclass="nonfinite")
             yield mk_case(dtype, vals, "ufunc2", vals2=[1.0] * len(vals), dtype2="float64", uf="multiply", style="runs", vclass="nonfinite")
+    # operands switching at the same positions between values of very different magnitude (a pair taken across the boundary would overflow)
+    for a_, b_, uf_ in (([1e200] * 3 + [1e-200] * 2, [1e-200] * 3 + [1e200] * 2, "multiply"), ([0.0] * 3 + [inf] * 2, [inf] * 3 + [0.0] * 2, "add"),
+                        ([inf] * 2 + [1.0] * 2 + [inf], [1.0] * 2 + [inf] * 2 + [1.0], "subtract"), ([1.7e308, 1.7e308, -1.7e308, 1.0], [-1.7e308, -1.7e308, 1.7e308, 1.0], "add")):
+        yield mk_case("float64", a_, "ufunc2", vals2=b_, dtype2="float64", uf=uf_, style="runs", vclass="extreme")
+        yield mk_case("float64", b_, "ufunc2", vals2=a_, dtype2="float64", uf=uf_, style="runs", vclass="extreme")
     # coinciding boundaries with a result that is constant across them
     for vals in ([4, 4, 9, 9], [1, 2, 3], [5, 5, 5, 6], [2, 3, 2, 3, 4, 5]):
         for via in ("concat", "floordiv", "cmp"):
